@@ -4,9 +4,10 @@
 #![allow(unused)]
 use crate::util::*;
 use constriction::backends::{
-    BoundedReadWords, BoundedWriteWords, Cursor, FallibleCallbackWriteWords,
-    FallibleIteratorReadWords, InfallibleCallbackWriteWords, InfallibleIteratorReadWords,
-    ReadWords, Reverse, SafeBuf, WriteWords,
+    AsReadWords, AsSeekReadWords, BoundedReadWords, BoundedWriteWords, Cursor,
+    FallibleCallbackWriteWords, FallibleIteratorReadWords, InfallibleCallbackWriteWords,
+    InfallibleIteratorReadWords, IntoReadWords, IntoSeekReadWords, ReadWords, Reverse, SafeBuf,
+    WriteWords,
 };
 use constriction::{Pos, Queue, Seek, Stack};
 use smallvec::SmallVec;
@@ -38,6 +39,10 @@ pub enum Op<W> {
     Raw,
     BmSet(Vec<W>),
     BmTruncate(usize),
+    /// 0 = `as_view`, 1 = `as_mut_view`, 2 = `cloned`: make it, run the program on it, drop it
+    View(u8, Vec<Op<W>>),
+    /// callbacks: `into_inner()`, call the callback directly, wrap it again
+    IntoInner(W),
 }
 
 /// strict hex: only hex digits (no sign), value below 2^128 — exactly what the Lean driver accepts
@@ -87,8 +92,70 @@ fn parse_op<W: Wd>(seg: &[&str]) -> Option<Op<W>> {
         ["raw"] => Op::Raw,
         ["bm_set", ws] => Op::BmSet(parse_words(ws)?),
         ["bm_truncate", n] => Op::BmTruncate(parse_usize(n)?),
+        ["as_view", pr] => Op::View(0, parse_prog(pr)?),
+        ["as_mut_view", pr] => Op::View(1, parse_prog(pr)?),
+        ["cloned", pr] => Op::View(2, parse_prog(pr)?),
+        ["into_inner", w] => Op::IntoInner(from_u128(ph(w)?)),
         _ => return None,
     })
+}
+
+/// sub-op of a view program: `name` or `name:arg` (lists inside with `.`)
+fn parse_sub_op<W: Wd>(t: &str) -> Option<Op<W>> {
+    let parts: Vec<&str> = t.split(':').collect();
+    Some(match parts.as_slice() {
+        ["read_s"] => Op::ReadS,
+        ["read_q"] => Op::ReadQ,
+        ["write", w] => Op::Write(from_u128(ph(w)?)),
+        ["extend_from_iter", ws] => {
+            if *ws == "-" {
+                Op::Extend(vec![])
+            } else {
+                Op::Extend(ws.split('.').map(|t| ph(t).map(from_u128::<W>)).collect::<Option<Vec<W>>>()?)
+            }
+        }
+        ["remaining_s"] => Op::RemS,
+        ["remaining_q"] => Op::RemQ,
+        ["exhausted_s"] => Op::ExhS,
+        ["exhausted_q"] => Op::ExhQ,
+        ["space_left"] => Op::SpaceLeft,
+        ["full"] => Op::Full,
+        ["pos"] => Op::Pos,
+        ["seek", n] => Op::Seek(parse_usize(n)?),
+        ["into_reversed"] => Op::IntoReversed,
+        ["raw"] => Op::Raw,
+        _ => return None,
+    })
+}
+
+fn parse_prog<W: Wd>(s: &str) -> Option<Vec<Op<W>>> {
+    if s == "-" {
+        return Some(vec![]);
+    }
+    s.split(',').map(parse_sub_op::<W>).collect()
+}
+
+fn show_sub_op<W: Wd>(op: &Op<W>) -> String {
+    match op {
+        Op::Write(w) => format!("write:{:x}", to_u128(*w)),
+        Op::Extend(ws) => {
+            if ws.is_empty() {
+                "extend_from_iter:-".into()
+            } else {
+                format!("extend_from_iter:{}", ws.iter().map(|w| hex(to_u128(*w))).collect::<Vec<_>>().join("."))
+            }
+        }
+        Op::Seek(n) => format!("seek:{:x}", n),
+        other => show_op(other),
+    }
+}
+
+fn show_prog<W: Wd>(prog: &[Op<W>]) -> String {
+    if prog.is_empty() {
+        "-".into()
+    } else {
+        prog.iter().map(show_sub_op).collect::<Vec<_>>().join(",")
+    }
 }
 
 fn show_op<W: Wd>(op: &Op<W>) -> String {
@@ -110,6 +177,8 @@ fn show_op<W: Wd>(op: &Op<W>) -> String {
         Op::Raw => "raw".into(),
         Op::BmSet(ws) => format!("bm_set {}", show_ws(ws)),
         Op::BmTruncate(n) => format!("bm_truncate {:x}", n),
+        Op::View(k, prog) => format!("{} {}", ["as_view", "as_mut_view", "cloned"][*k as usize], show_prog(prog)),
+        Op::IntoInner(w) => format!("into_inner {:x}", to_u128(*w)),
     }
 }
 
@@ -229,7 +298,7 @@ impl<W: Wd> BufK<W> for &'static [W] {
     }
 }
 
-fn cur_ro<W: Wd, Buf: BufK<W>>(c: &mut Cursor<W, Buf>, op: &Op<W>) -> Option<String> {
+fn cur_ro<W: Wd, Buf: SafeBuf<W>>(c: &mut Cursor<W, Buf>, op: &Op<W>) -> Option<String> {
     Some(match op {
         Op::ReadS => show_word(<_ as ReadWords<W, Stack>>::read(c).unwrap()),
         Op::ReadQ => show_word(<_ as ReadWords<W, Queue>>::read(c).unwrap()),
@@ -248,6 +317,13 @@ fn cur_ro<W: Wd, Buf: BufK<W>>(c: &mut Cursor<W, Buf>, op: &Op<W>) -> Option<Str
         Op::Pos => hex(c.pos() as u128),
         Op::Seek(p) => okerr(c.seek(*p), "err"),
         Op::Raw => format!("fwd {} {:x}", show_ws(c.buf().as_ref()), c.pos()),
+        _ => return None,
+    })
+}
+
+/// `buf_mut()` misuse and the ops that make a temporary view / copy
+fn cur_extra<W: Wd, Buf: BufK<W>>(c: &mut Cursor<W, Buf>, op: &Op<W>) -> Option<String> {
+    Some(match op {
         Op::BmSet(ws) => {
             *c.buf_mut() = Buf::from_vec(ws.clone());
             "ok".into()
@@ -256,11 +332,78 @@ fn cur_ro<W: Wd, Buf: BufK<W>>(c: &mut Cursor<W, Buf>, op: &Op<W>) -> Option<Str
             c.buf_mut().truncate(*n);
             "ok".into()
         }
+        Op::View(0, prog) => show_outs(view_prog_ro(c.as_view(), prog)),
+        Op::View(2, prog) => show_outs(view_prog_rw(c.cloned(), prog)),
         _ => return None,
     })
 }
 
-fn rev_ro<W: Wd, Buf: BufK<W>>(r: &mut Reverse<Cursor<W, Buf>>, op: &Op<W>) -> Option<String> {
+fn show_outs(v: Vec<String>) -> String {
+    format!("[{}]", v.join(" ; "))
+}
+
+/// run a program on a temporary read-only cursor (`as_view`)
+fn view_prog_ro<W: Wd, Buf: SafeBuf<W>>(mut c: Cursor<W, Buf>, prog: &[Op<W>]) -> Vec<String> {
+    prog.iter().map(|op| cur_ro(&mut c, op).unwrap_or(UNSUP.into())).collect()
+}
+
+enum VSt<W, Buf> {
+    F(Cursor<W, Buf>),
+    R(Reverse<Cursor<W, Buf>>),
+}
+
+/// run a program on a temporary writable cursor (`as_mut_view`, `cloned`)
+fn view_prog_rw<W: Wd, Buf: SafeBuf<W> + AsMut<[W]>>(c: Cursor<W, Buf>, prog: &[Op<W>]) -> Vec<String> {
+    let mut st = VSt::F(c);
+    let mut outs = Vec::new();
+    for op in prog {
+        st = match st {
+            VSt::F(mut c) => {
+                if let Some(s) = cur_ro(&mut c, op) {
+                    outs.push(s);
+                    VSt::F(c)
+                } else {
+                    match op {
+                        Op::Write(w) => outs.push(okerr(c.write(*w), "full")),
+                        Op::Extend(ws) => outs.push(extend_out(&mut c, ws)),
+                        Op::SpaceLeft => outs.push(hex(c.space_left() as u128)),
+                        Op::Full => outs.push(format!("{} {}", c.is_full(), c.maybe_full())),
+                        Op::IntoReversed => {
+                            outs.push("ok".into());
+                            st = VSt::R(c.into_reversed());
+                            continue;
+                        }
+                        _ => outs.push(UNSUP.into()),
+                    }
+                    VSt::F(c)
+                }
+            }
+            VSt::R(mut r) => {
+                if let Some(s) = rev_ro(&mut r, op) {
+                    outs.push(s);
+                    VSt::R(r)
+                } else {
+                    match op {
+                        Op::Write(w) => outs.push(okerr(r.write(*w), "full")),
+                        Op::Extend(ws) => outs.push(extend_out(&mut r, ws)),
+                        Op::SpaceLeft => outs.push(hex(r.space_left() as u128)),
+                        Op::Full => outs.push(format!("{} {}", r.is_full(), r.maybe_full())),
+                        Op::IntoReversed => {
+                            outs.push("ok".into());
+                            st = VSt::F(r.into_reversed());
+                            continue;
+                        }
+                        _ => outs.push(UNSUP.into()),
+                    }
+                    VSt::R(r)
+                }
+            }
+        };
+    }
+    outs
+}
+
+fn rev_ro<W: Wd, Buf: SafeBuf<W>>(r: &mut Reverse<Cursor<W, Buf>>, op: &Op<W>) -> Option<String> {
     Some(match op {
         Op::ReadS => show_word(<_ as ReadWords<W, Stack>>::read(r).unwrap()),
         Op::ReadQ => show_word(<_ as ReadWords<W, Queue>>::read(r).unwrap()),
@@ -279,14 +422,6 @@ fn rev_ro<W: Wd, Buf: BufK<W>>(r: &mut Reverse<Cursor<W, Buf>>, op: &Op<W>) -> O
         Op::Pos => hex(r.pos() as u128),
         Op::Seek(p) => okerr(r.seek(*p), "err"),
         Op::Raw => format!("rev {} {:x}", show_ws(r.0.buf().as_ref()), r.0.pos()),
-        Op::BmSet(ws) => {
-            *r.0.buf_mut() = Buf::from_vec(ws.clone());
-            "ok".into()
-        }
-        Op::BmTruncate(n) => {
-            r.0.buf_mut().truncate(*n);
-            "ok".into()
-        }
         _ => return None,
     })
 }
@@ -324,7 +459,11 @@ fn rebuild<W: Wd, Buf: BufK<W>>(c: &Cursor<W, Buf>) -> Cursor<W, Buf> {
 
 impl<W: Wd, Buf: BufK<W> + AsMut<[W]>> Dyn<W> for CurRW<W, Buf> {
     fn op(mut self: Box<Self>, op: &Op<W>) -> (String, Box<dyn Dyn<W>>) {
-        if let Some(s) = cur_ro(&mut self.0, op) {
+        if let Some(s) = cur_ro(&mut self.0, op).or_else(|| cur_extra(&mut self.0, op)) {
+            return (s, self);
+        }
+        if let Op::View(1, prog) = op {
+            let s = show_outs(view_prog_rw(self.0.as_mut_view(), prog));
             return (s, self);
         }
         let c = &mut self.0;
@@ -358,7 +497,11 @@ impl<W: Wd, Buf: BufK<W> + AsMut<[W]>> Dyn<W> for CurRW<W, Buf> {
 
 impl<W: Wd, Buf: BufK<W> + AsMut<[W]>> Dyn<W> for RevRW<W, Buf> {
     fn op(mut self: Box<Self>, op: &Op<W>) -> (String, Box<dyn Dyn<W>>) {
-        if let Some(s) = rev_ro(&mut self.0, op) {
+        if let Some(s) = rev_ro(&mut self.0, op).or_else(|| cur_extra(&mut self.0 .0, op)) {
+            return (s, self);
+        }
+        if let Op::View(1, prog) = op {
+            let s = show_outs(view_prog_rw(self.0 .0.as_mut_view(), prog));
             return (s, self);
         }
         let r = &mut self.0;
@@ -392,7 +535,7 @@ impl<W: Wd, Buf: BufK<W> + AsMut<[W]>> Dyn<W> for RevRW<W, Buf> {
 
 impl<W: Wd> Dyn<W> for CurRO<W> {
     fn op(mut self: Box<Self>, op: &Op<W>) -> (String, Box<dyn Dyn<W>>) {
-        if let Some(s) = cur_ro(&mut self.0, op) {
+        if let Some(s) = cur_ro(&mut self.0, op).or_else(|| cur_extra(&mut self.0, op)) {
             return (s, self);
         }
         if let Op::Roundtrip = op {
@@ -414,7 +557,7 @@ impl<W: Wd> Dyn<W> for CurRO<W> {
 
 impl<W: Wd> Dyn<W> for RevRO<W> {
     fn op(mut self: Box<Self>, op: &Op<W>) -> (String, Box<dyn Dyn<W>>) {
-        if let Some(s) = rev_ro(&mut self.0, op) {
+        if let Some(s) = rev_ro(&mut self.0, op).or_else(|| cur_extra(&mut self.0 .0, op)) {
             return (s, self);
         }
         if let Op::Roundtrip = op {
@@ -606,6 +749,12 @@ fn cb_extend<W: Wd, B: WriteWords<W>>(b: &mut B, ws: &[W]) -> String {
 
 impl<W: Wd> Dyn<W> for CbF<W> {
     fn op(mut self: Box<Self>, op: &Op<W>) -> (String, Box<dyn Dyn<W>>) {
+        if let Op::IntoInner(w) = op {
+            let CbF(adapter, st) = *self;
+            let mut callback = adapter.into_inner();
+            let r = okerr(callback(*w), "cberr");
+            return (r, Box::new(CbF(FallibleCallbackWriteWords::new(callback), st)));
+        }
         let s = match op {
             Op::Write(w) => okerr(self.0.write(*w), "cberr"),
             Op::Extend(ws) => cb_extend(&mut self.0, ws),
@@ -624,6 +773,12 @@ impl<W: Wd> Dyn<W> for CbF<W> {
 }
 impl<W: Wd> Dyn<W> for CbI<W> {
     fn op(mut self: Box<Self>, op: &Op<W>) -> (String, Box<dyn Dyn<W>>) {
+        if let Op::IntoInner(w) = op {
+            let CbI(adapter, st) = *self;
+            let mut callback = adapter.into_inner();
+            callback(*w);
+            return ("ok".into(), Box::new(CbI(InfallibleCallbackWriteWords::new(callback), st)));
+        }
         let s = match op {
             Op::Write(w) => okerr(self.0.write(*w), "cberr"),
             Op::Extend(ws) => cb_extend(&mut self.0, ws),
@@ -663,8 +818,41 @@ enum Init<W: Wd> {
     Ok(Box<dyn Dyn<W>>),
 }
 
+/// constructors that need `Buf: AsMut<[W]>`
+fn cursor_init_mut<W: Wd, Buf: BufK<W> + AsMut<[W]>>(seg: &[&str]) -> Option<Result<Cursor<W, Buf>, ()>> {
+    Some(match seg {
+        ["at_mut", ws, p] => {
+            let l = parse_words::<W>(ws)?;
+            let p = parse_usize(p)?;
+            Cursor::new_at_pos_mut(Buf::from_vec(l), p)
+        }
+        ["end_mut", ws] => Ok(Cursor::new_at_write_end_mut(Buf::from_vec(parse_words::<W>(ws)?))),
+        _ => return None,
+    })
+}
+
+/// `AsReadWords` / `AsSeekReadWords` of a `Vec<W>`: a cursor over a borrowed slice
+fn cursor_init_as<W: Wd>(seg: &[&str]) -> Option<Result<Cursor<W, &'static [W]>, ()>> {
+    let leak = |ws: &str| -> Option<&'static Vec<W>> { Some(Box::leak(Box::new(parse_words::<W>(ws)?))) };
+    Some(Ok(match seg {
+        ["as_read_s", ws] => <Vec<W> as AsReadWords<'static, W, Stack>>::as_read_words(leak(ws)?),
+        ["as_read_q", ws] => <Vec<W> as AsReadWords<'static, W, Queue>>::as_read_words(leak(ws)?),
+        ["as_seek_read_s", ws] => <Vec<W> as AsSeekReadWords<'static, W, Stack>>::as_seek_read_words(leak(ws)?),
+        ["as_seek_read_q", ws] => <Vec<W> as AsSeekReadWords<'static, W, Queue>>::as_seek_read_words(leak(ws)?),
+        _ => return None,
+    }))
+}
+
 fn cursor_init<W: Wd, Buf: BufK<W>>(seg: &[&str]) -> Option<Result<Cursor<W, Buf>, ()>> {
     Some(match seg {
+        ["into_read_s", ws] => Ok(<Buf as IntoReadWords<W, Stack>>::into_read_words(Buf::from_vec(parse_words::<W>(ws)?))),
+        ["into_read_q", ws] => Ok(<Buf as IntoReadWords<W, Queue>>::into_read_words(Buf::from_vec(parse_words::<W>(ws)?))),
+        ["into_seek_read_s", ws] => {
+            Ok(<Buf as IntoSeekReadWords<W, Stack>>::into_seek_read_words(Buf::from_vec(parse_words::<W>(ws)?)))
+        }
+        ["into_seek_read_q", ws] => {
+            Ok(<Buf as IntoSeekReadWords<W, Queue>>::into_seek_read_words(Buf::from_vec(parse_words::<W>(ws)?)))
+        }
         ["at", ws, p] => {
             let l = parse_words::<W>(ws)?;
             let p = parse_usize(p)?;
@@ -677,7 +865,7 @@ fn cursor_init<W: Wd, Buf: BufK<W>>(seg: &[&str]) -> Option<Result<Cursor<W, Buf
 }
 
 fn mk_rw<W: Wd, Buf: BufK<W> + AsMut<[W]>>(seg: &[&str], rev: bool) -> Init<W> {
-    match cursor_init::<W, Buf>(seg) {
+    match cursor_init_mut::<W, Buf>(seg).or_else(|| cursor_init::<W, Buf>(seg)) {
         None => Init::Bad,
         Some(Err(())) => Init::Refused,
         Some(Ok(c)) => {
@@ -690,7 +878,7 @@ fn mk_rw<W: Wd, Buf: BufK<W> + AsMut<[W]>>(seg: &[&str], rev: bool) -> Init<W> {
     }
 }
 fn mk_ro<W: Wd>(seg: &[&str], rev: bool) -> Init<W> {
-    match cursor_init::<W, &'static [W]>(seg) {
+    match cursor_init_as::<W>(seg).or_else(|| cursor_init::<W, &'static [W]>(seg)) {
         None => Init::Bad,
         Some(Err(())) => Init::Refused,
         Some(Ok(c)) => {
